@@ -64,6 +64,10 @@ func execCase(t *testing.T, rc *RunCase, rngForGen func() chooser, keep bool, de
 		rr.Violations = append(vs, v14...)
 		rr.SimUS, rr.Stats = out.SimUS, out.Stats
 		rr.Stats["c14_cases"] = int64(len(obs))
+		if rc.GridSlice > 0 && len(obs) == len(rc.C14) {
+			rr.Stats["c14_grid_cases"] = int64(len(obs))
+			rr.gridSlice = rc.GridSlice
+		}
 		for _, o := range obs {
 			rr.sigs = append(rr.sigs, hash64(fmt.Sprintf("%d/%d/%d/%v/%v", o.Case.Own, o.Case.OwnInc, o.Case.MoveTime, o.Case.HasInc, o.Case.Ponder)))
 			if o.ByTimer {
@@ -337,6 +341,7 @@ func TestWorker(t *testing.T) {
 	start := time.Now()
 	deadline := func() bool { return job.BudgetS > 0 && time.Since(start).Seconds() > job.BudgetS }
 	sum := WorkerSummary{Type: "summary", Worker: job.Worker, Stats: map[string]int64{}, LegRuns: map[string]int{}}
+	gridSeen := map[int]bool{}
 	nontrivial := map[uint64]struct{}{}
 	all := map[uint64]struct{}{}
 	thorough := job.Tier == "thorough"
@@ -368,6 +373,9 @@ func TestWorker(t *testing.T) {
 		}
 		sum.Runs++
 		sum.LegRuns[rc.Leg]++
+		if rr.gridSlice > 0 {
+			gridSeen[rr.gridSlice-1] = true
+		}
 		sum.SimS += float64(rr.SimUS) / 1e6
 		for k, v := range rr.Stats {
 			sum.Stats[k] += v
@@ -419,6 +427,12 @@ func TestWorker(t *testing.T) {
 		sum.Sigs = append(sum.Sigs, s)
 	}
 	sum.AllSigs = len(all)
+	for k := range gridSeen {
+		sum.GridSlices = append(sum.GridSlices, k)
+	}
+	if job.Property == "C14" {
+		sum.GridTotal = (len(c14Grid()) + 29) / 30
+	}
 	emit(sum)
 }
 
